@@ -112,7 +112,7 @@ def impl_forwarded(pairs, mem, small):
             C.MAX_REGION_LEN = small[0]
             C.MIN_READS_TO_SPLIT = small[1]
         col = C("chr1", pairs, _params(mem), None, None, None)
-        col.process_alignments_in_region = lambda region, alns: (region, [[i, B.tag_of(a)] for i, a in alns])
+        col.process_alignments_in_region = lambda region, alns, gene_region=None: (region, [[i, B.tag_of(a)] for i, a in alns])
         out = [[list(region), lst] for region, lst in col.process()]
     finally:
         C.MAX_REGION_LEN, C.MIN_READS_TO_SPLIT = saved[0], saved[1]
